@@ -1,0 +1,27 @@
+//go:build verif
+
+package fr
+
+// Verification hooks (build tag "verif"): expose the portable generic
+// implementations next to the assembly ones, and the ADX dispatch switch.
+
+func VerifMulGeneric(z, x, y *Element)       { _mulGeneric(z, x, y) }
+func VerifAddGeneric(z, x, y *Element)       { _addGeneric(z, x, y) }
+func VerifSubGeneric(z, x, y *Element)       { _subGeneric(z, x, y) }
+func VerifNegGeneric(z, x *Element)          { _negGeneric(z, x) }
+func VerifDoubleGeneric(z, x *Element)       { _doubleGeneric(z, x) }
+func VerifReduceGeneric(z *Element)          { _reduceGeneric(z) }
+func VerifFromMontGeneric(z *Element)        { _fromMontGeneric(z) }
+func VerifButterflyGeneric(a, b *Element)    { _butterflyGeneric(a, b) }
+func VerifMulByConstant(z *Element, c uint8) { mulByConstant(z, c) }
+
+// VerifSetSupportAdx switches the run-time ADX dispatch of the assembly
+// multiplication and returns the previous setting.
+func VerifSetSupportAdx(v bool) bool {
+	old := supportAdx
+	supportAdx = v
+	return old
+}
+
+// VerifSupportAdx reports the current dispatch setting.
+func VerifSupportAdx() bool { return supportAdx }
